@@ -582,10 +582,14 @@ def inline_helpers(tree: ast.AST, defs: dict, select: typing.Callable[[str, ast.
         sites = [c for c in ast.walk(scope) if is_call(c) and id(c) not in inside]
         funcs = {id(c.func) for c in sites}
         other_refs = [x for x in ast.walk(scope) if ((isinstance(x, ast.Attribute) and x.attr == name) or (isinstance(x, ast.Name) and x.id == name)) and id(x) not in funcs and id(x) not in inside]
-        if other_refs and not tail_mode and kind in ('plain', 'static') and len(body) == 1 and isinstance(body[0], ast.Return) and body[0].value is not None and all(isinstance(x.ctx, ast.Load) and (isinstance(x, ast.Name) or (kind == 'static' and isinstance(x, ast.Attribute) and isinstance(x.value, ast.Name) and x.value.id in ('self', 'cls', cls_name))) for x in other_refs) and not node.args.defaults:
-            # a one-expression function handed around as a value is the lambda of that expression
+        if other_refs and not tail_mode and kind in ('plain', 'static', 'method') and len(body) == 1 and isinstance(body[0], ast.Return) and body[0].value is not None and all(isinstance(x.ctx, ast.Load) and ((kind == 'plain' and isinstance(x, ast.Name)) or (kind == 'static' and isinstance(x, ast.Attribute) and isinstance(x.value, ast.Name) and x.value.id in ('self', 'cls', cls_name)) or (kind == 'method' and isinstance(x, ast.Attribute) and isinstance(x.value, ast.Name) and x.value.id == 'self' and params[0] == 'self')) for x in other_refs) and not node.args.defaults:
+            # a one-expression function handed around as a value is the lambda of that expression (a bound method
+            # ``self.h`` is the lambda over the remaining parameters, closing over the very same ``self``)
             for x in other_refs:
-                lam = ast.copy_location(ast.Lambda(args=clone(node.args), body=clone(body[0].value)), x)
+                largs = clone(node.args)
+                if kind == 'method':
+                    largs.args = largs.args[1:]
+                lam = ast.copy_location(ast.Lambda(args=largs, body=clone(body[0].value)), x)
                 for a in ast.walk(lam.args):
                     if isinstance(a, ast.arg):
                         a.annotation = None
